@@ -108,3 +108,59 @@ def play_history(rng, song, kind="plain"):
         h.append({"e": "PlayTicks", "steps": [rng.choice([1000, 7000, 33000, 120000, 250000, 1000000]) for _ in range(5)],
                   "gran": rng.choice([0, 0, 2000]), "max": 20000})
     return h
+
+
+def ref_times(song):
+    """event times (us) of a song from the integral-tempo family (python twin used only to pick seek targets)"""
+    tempi = []
+    for k, tr in enumerate(song["tracks"]):
+        t = 0
+        for i, (dt, e) in enumerate(tr["ev"]):
+            t += dt
+            if e["k"] == "tempo": tempi.append((t, k, i, e["us"]))
+    tempi.sort()
+    def time_of(T):
+        us = 0; cur = 0; tempo = 500000
+        for (tk, _, _, u) in tempi:
+            if tk >= T: break
+            if tk > cur:
+                us += (tk - cur) * (tempo // song["div"]); cur = tk
+            tempo = u
+        # tempo events at tick <= cur apply from their tick on
+        tempo_eff = 500000
+        for (tk, _, _, u) in tempi:
+            if tk <= cur: tempo_eff = u
+        seg = []
+        last = cur
+        for (tk, _, _, u) in tempi:
+            if cur < tk < T: seg.append(tk)
+        # simple piecewise sum
+        us = 0; pos = 0
+        pts = sorted(set([0] + [tk for (tk, _, _, _) in tempi if tk < T] + [T]))
+        for a, b in zip(pts, pts[1:]):
+            te = 500000
+            for (tk, _, _, u) in tempi:
+                if tk <= a: te = u
+            us += (b - a) * (te // song["div"])
+        return us
+    times = set()
+    for tr in song["tracks"]:
+        t = 0
+        for (dt, e) in tr["ev"]:
+            t += dt; times.add(time_of(t))
+    return sorted(times)
+
+def seek_history(rng, song):
+    h = [{"e": "Init", "rate": 44100, "chips": 2}, song, {"e": "SetHooks"}, {"e": "Load"}]
+    ts = ref_times(song)
+    last = ts[-1] if ts else 0
+    cands = [0] + ts + [(a + b) // 2 for a, b in zip(ts, ts[1:])] + [last + 500000, last + 1000000]
+    if rng.random() < 0.4:
+        h.append({"e": "PlayTicks", "steps": [], "max": 3000, "until": rng.choice(cands)})
+    for _ in range(rng.choice([1, 1, 2, 3])):
+        r = rng.random()
+        if r < 0.08: h.append({"e": "Seek", "us": -1000000})
+        elif r < 0.16: h.append({"e": "Seek", "us": last + 5000000})
+        else: h.append({"e": "Seek", "us": rng.choice(cands)})
+    h.append({"e": "PlayTicks", "steps": [], "max": 3000})
+    return h
